@@ -211,6 +211,9 @@ def run(ctx):
     ctx.attempt(r73, ctx, rep)
     from .common import check_side_mismatches as _sides
     from .common import check_selector_truth as _seltruth
+    rep.rule('R7.12', 'the options of the hash join / lookup functions (cache, missing, prefixes, keys) are handed on unchanged to the views they construct')
+    from .c10 import check_forwarding as _fwd
+    ctx.floor('hashjoin_option_sites', ctx.attempt(_fwd, ctx, rep, 'R7.12', 'petl.transform.hashjoins', exclude={'presorted', 'buffersize', 'tempdir'}) or 0, 10)
     rep.rule('R7.10', 'a key selector (name or position; 0 and \'\' are valid) is never tested for truth')
     ctx.floor('selector_functions', ctx.attempt(_seltruth, ctx, rep, 'R7.10', ctx.functions(
         ['petl.transform.hashjoins', 'petl.util.lookups'])) or 0, 6)
@@ -436,6 +439,7 @@ def _classify_multi(fn):
                 out[present] = 'append-to-existing'
             elif appends and norm(appends[0].value.func.value) == DK:
                 out[present] = 'append-to-existing'
+                out['in-place'] = True       # no write-back of the list under the key (see r72)
             else:
                 out[present] = 'other: ' + ' ; '.join(texts[-3:])
         else:
@@ -486,6 +490,16 @@ def r72(ctx, rep):
                 raise AnalysisError('anchor vanished: petl.util.lookups:%s' % nm)
             results[fn] = classify(fn)
         decided = [r for r, why in results.values() if r is not None]
+        # siblings agree on HOW the list of an existing key is extended: read, append, store back (which also works for a
+        # persistent mapping such as shelve, the documented use of `dictionary=`) or append in place (which does not)
+        inplace = {fn: bool(r.pop('in-place', False)) for fn, (r, why) in results.items() if r is not None}
+        if inplace and any(inplace.values()) and not all(inplace.values()):
+            for fn, ip in inplace.items():
+                if ip:
+                    rep.violated('R7.2', fn, 'update rule: write-back',
+                                 '%s appends to `dictionary[k]` in place while its siblings read the list, append and store it '
+                                 'back under the key: with a persistent mapping passed as `dictionary=` (shelve) the append is '
+                                 'lost and every repeated key keeps only its first row' % fn.name, fn.node)
         for fn, (r, why) in results.items():
             if r is None:
                 if decided:
